@@ -80,7 +80,7 @@ Definition allow_list : list (site * reason) := [
   ((f_smiles, "Smiles._smiles", "for for n in atoms_set"), OrderFree "group_sizes_perm");          (* groups[weights(n)] -= 1 *)
   ((f_smiles, "Smiles._smiles", "call min(atoms_set, key=mod_weights_start)"), KeyedTieBreak "min_by_perm");
   ((f_smiles, "Smiles._smiles", "for for m in bonds[n].keys() - seen.keys()"), OrderFree "bfs_level_perm");   (* seen[m] = d: the same d for every m *)
-  ((f_smiles, "Smiles._smiles", "call sorted(front, key=mod_weights)"), KeyedTieBreak "sort_by_perm");
+  ((f_smiles, "Smiles._smiles", "call sorted(front, key=lambda x, c=child: (mod_weights(x), int(bonds[c][x])))"), KeyedTieBreak "sort_by_perm");   (* ties left: equal weight AND equal bond order to the parent *)
   ((f_smiles, "MoleculeSmiles.sticky_smiles", "for for m in bonds[n].keys() - seen.keys()"), OrderFree "bfs_level_perm");
   (* ---- rings.py ---- *)
   ((f_rings, "Rings.rings_graph", "pop atoms.pop()"), IntHistory "DFS start atom; the result (atoms on cycles) is compared across seeds only");
@@ -107,15 +107,13 @@ Definition allow_list : list (site * reason) := [
   ((f_linear, "LinearFingerprint.linear_bit_set", "for for tpl in hashes"), OrderFree "set_of_map_perm");     (* active_bits.add(...) *)
   ((f_linear, "LinearFingerprint.linear_hash_set", "hash hash((*tpl, cnt))"), HashOfInts);
   ((f_linear, "LinearFingerprint.linear_hash_smiles", "hash hash((*frg, cnt))"), HashOfInts);
-  ((f_linear, "LinearFingerprint.linear_hash_smiles", "call list(v)"),
-     StrSet "one SMILES per fragment key: more than one member only when two fragment keys collide under the 64-bit tuple hash");
+  ((f_linear, "LinearFingerprint.linear_hash_smiles", "call sorted(v)"), OrderFree "sorted_str_perm");    (* set of str, sorted: repaired by fix 59bbd7c *)
   ((f_linear, "LinearFingerprint._chains", "call deque(arr)"), OrderFree "chains_insertion_order_free");       (* C17 *)
   ((f_linear, "LinearFingerprint._fragments", "for for frag in self._chains(min_radius, max_radius)"),
      IntHistory "dict of lists filled in set order: keys and per-key multisets are order free (C17_fragments_*), the insertion order of the dict and of each list follows the int-tuple set");
   ((f_mfp, "MorganFingerprint.morgan_fingerprint", "call list(bits)"), OrderFree "index_set_perm");
   ((f_mfp, "MorganFingerprint.morgan_bit_set", "for for tpl in self.morgan_hash_set(min_radius, max_radius)"), OrderFree "set_of_map_perm");
-  ((f_mfp, "MorganFingerprint.morgan_hash_smiles", "call list(v)"),
-     StrSet "GENUINE seed dependence (known finding C19 seed-dependent:morgan_hash_smiles): atoms with equal Morgan hash can have different environment SMILES (ring closure inside the sphere), the list is in str-set order");
+  ((f_mfp, "MorganFingerprint.morgan_hash_smiles", "call sorted(v)"), OrderFree "sorted_str_perm");       (* was list(v): seed dependent until fix 59bbd7c *)
   ((f_mfp, "MorganFingerprint._morgan_hash_dict", "hash hash((tpl, *(x for x in sorted(((int(b), identifiers[ngb]) for ngb, b in bonds[idx].items())) for x in x)))"), HashOfInts);
   (* ---- isomorphism.py ---- *)
   ((f_iso, "MoleculeIsomorphism._cython_compiled_structure", "for for r in a.ring_sizes"), OrderFree "ring_mask_perm");   (* v4 |= 1 << (65 - r) *)
@@ -131,7 +129,7 @@ Definition allow_list : list (site * reason) := [
 Definition known_lemmas : list string :=
   ["group_sizes_perm"; "min_by_perm"; "bfs_level_perm"; "sort_by_perm"; "remove_vertices_perm"; "discard_all_perm"; "components_partition";
    "singleton_enum"; "filter_set_perm"; "lookup_table_perm"; "index_set_perm"; "set_of_map_perm";
-   "chains_insertion_order_free"; "ring_mask_perm"].
+   "chains_insertion_order_free"; "ring_mask_perm"; "sorted_str_perm"].
 
 Close Scope string_scope.
 
@@ -178,6 +176,20 @@ Section Keyed.
                 end
     end.
 End Keyed.
+
+(* sorted(l) for elements compared by a total order `leb` (str, tuples): stable insertion sort *)
+Section SortLeb.
+  Context {X : Type}.
+  Variable leb : X -> X -> bool.
+  Fixpoint insert_leb (x : X) (l : list X) : list X :=
+    match l with
+    | [] => [x]
+    | y :: r => if leb x y then x :: y :: r else y :: insert_leb x r
+    end.
+  Definition sort_leb (l : list X) : list X := fold_right insert_leb [] l.
+End SortLeb.
+(* sorted(v) for a set v of (ASCII) str: Python compares str by code points = String.leb *)
+Definition sorted_str (enum : list string) : list string := sort_leb String.leb enum.
 
 (* lexicographic keys (tuples) are compared through an order-embedding into Z by the callers; the writer's keys
    (groups, weight, bfs level) are bounded ints, see `pack3` *)
